@@ -271,6 +271,16 @@ Circle::Circle(double d)
     init();
 }
 """,
+        "member-qualifiers": """struct S : Base {
+    int size() const { return n; }
+    void draw() const override { x(); }
+    void stop() noexcept override final { y(); }
+    int get() const noexcept { return 1; }
+    int vol() const volatile { return 2; }
+    auto name() const -> std::string { return s; }
+    void plain() { z(); }
+};
+""",
         "disabled-regions": """int one() { return 1; } int two() { return 2; }
 int with_disabled(int a) {
 #if 0
